@@ -28,6 +28,7 @@ func init() {
 			{ID: "R20f", Floor: 1, Doc: "DeferredCarWriter.Put answers with what the underlying writer's Put answers: it has no `return nil` of its own (a put that is acknowledged here without reaching the writer is a block missing from the CAR)", Run: ruleR20f},
 			{ID: "R20g", Floor: 2, Doc: "the deferred writer hands the direct writer exactly the roots it was given: the constructors store their roots parameter itself (a rebuilt list turns nil into empty, and the header encodes the two differently)", Run: ruleR20g},
 			{ID: "R20h", Floor: 1, Doc: "OnPut can be called from inside a Put callback: Put runs the callbacks while holding the writer's lock, so OnPut must not acquire it", Run: ruleR20h},
+			{ID: "R20i", Floor: 1, Doc: "the path constructor treats every path as a file name: NewDeferredCarWriterForPath stores its path parameter as given, compares it with nothing and never hands over to the stream constructor", Run: ruleR20i},
 		},
 	})
 }
@@ -332,7 +333,7 @@ func ruleR20c(c *Ctx, r *Report) {
 		if !ok {
 			return
 		}
-		h := ci.Common().StaticCallee()
+		h := staticTarget(ci.Common())
 		if h == nil || h.Blocks == nil || h.Pkg != put.Pkg || h.Signature.Recv() == nil {
 			return
 		}
@@ -352,7 +353,7 @@ func ruleR20c(c *Ctx, r *Report) {
 		for _, st := range sites {
 			eachInstr(st.fn, func(in ssa.Instruction) {
 				ci, ok := in.(*ssa.Call)
-				if !ok || ci.Common().IsInvoke() || ci.Common().StaticCallee() != nil {
+				if !ok || ci.Common().IsInvoke() || staticTarget(ci.Common()) != nil {
 					return
 				}
 				if _, isB := ci.Common().Value.(*ssa.Builtin); isB {
